@@ -1,5 +1,585 @@
-import CachedModel
+/-
+  C03  No spurious loss.
+
+  The frame of ONE key's entry in Layer A (`CachedModel/State.lean`), for every state satisfying the invariants
+  (`Inv` of Lemmas/Inv.lean, `TtlInv` of Lemmas/TtlInv.lean, `QInv` of Lemmas/Queue.lean — all three hold at every
+  reachable state: `inv_reach`, `ttlinv_reach`, `qinv_of_reach`), every event, oracle, configuration.
+
+    * `C03_only_these_remove`        a present key becomes absent in one event only if (a) the worker executes a
+                                     `Delete` of THIS key, (b) the sweeper runs after the key's CURRENT deadline,
+                                     (c) the worker executes a put that does not fit (memory pressure), or
+                                     (d) `shutdown()` clears the cache;
+    * `C03_only_these_alter`         a present key's entry changes (and stays) only by `put_or_update` or `delete` of
+                                     THIS key, and keeps its id;
+    * `C03_no_pressure_no_eviction`  a put that fits evicts nothing; `C03_demand_fits_means_no_pressure`;
+    * `Quiet k`, `C03_retained`      along any sequence of events without operation on `k` itself, without memory
+                                     pressure and without shutdown — traffic on other keys, reads, access counting,
+                                     sketch ageing, sweeps, clock moves below the deadline, acknowledgement polls —
+                                     the entry of `k` stays THE VERY SAME entry, and (`C03_retained_read`) every
+                                     completed read returns its value;
+      `C03_accepted_put_retained`    from the worker step that accepted the put onwards.
+
+    * `C03_counterexample_expired_unswept_still_charged`  OBSERVATION: the weight that counts is that of all
+                                     CHARGED keys, including keys past their time-to-live that are not yet swept;
+                                     a concrete history in which the readable keys plus the incoming put fit and a
+                                     live key is evicted all the same (and the put then rejected).
+
+  Hypothesis added to the requested statements: `QInv s` in `C03_only_these_remove` / `C03_retained` (needed for case
+  (d): a parked `shutdown()` that continues has set the `shutting` flag — not implied by `Inv`/`TtlInv`).  `Inv s` is
+  not needed for `C03_only_these_remove` and `C03_only_these_alter`; they are stated without it.
+
+  Helper lemmas: `CachedProofs/Lemmas/Frame.lean` (`KeyCh`, `step_key`, `step_now_le`, `workerPut_fits`).
+-/
+import CachedProofs.Lemmas.Frame
+import CachedProofs.Properties.C07
+import CachedProofs.Properties.C09
+import CachedProofs.Properties.C10
 
 namespace Cached
+
+/-! ### 1. what removes a key -/
+
+/-- **Only these remove a key.** -/
+theorem C03_only_these_remove {s s' : State} {ev : Ev} {o o' : Oracle} {out : Out} {k : Nat} {e : Entry}
+    (ht : TtlInv s) (hq : QInv s) (hs : step s ev o = .ok (s', out, o'))
+    (hk : s.store.get? k = some e) (hk' : s'.store.get? k = none) :
+    (ev = .worker ∧ s.worker = .running ∧ ∃ h q, s.queue = (.delete k, h) :: q) ∨
+    (ev = .sweep ∧ ∃ x, e.expiry = some x ∧ s.now > x) ∨
+    (ev = .worker ∧ s.worker = .running ∧ ∃ id hash w k' v h q,
+      (s.queue = (.put id hash w k' v, h) :: q ∨ ∃ t, s.queue = (.putTtl id hash w k' v t, h) :: q) ∧
+      s.adm.max - s.adm.used < w) ∨
+    (s'.shutting = true ∧ ∃ c, ev = .shutdown c ∨ ev = .resume c) := by
+  cases step_key hs k with
+  | same h1 => rw [h1, hk] at hk'; cases hk'
+  | upsert c v w t rm e0 e1 _ _ h1 => rw [h1] at hk'; cases hk'
+  | softDelete c e0 _ _ h1 => rw [h1] at hk'; cases hk'
+  | workerDelete hh q hev hw hqq _ => exact Or.inl ⟨hev, hw, hh, q, hqq⟩
+  | evicted id hash w k0 v hh q hev hw hqq hpress _ =>
+    exact Or.inr (Or.inr (Or.inl ⟨hev, hw, id, hash, w, k0, v, hh, q, hqq, hpress⟩))
+  | inserted id hash w v hh q entry _ _ _ h0 => rw [hk] at h0; cases h0
+  | swept evs hev hsw _ =>
+    obtain ⟨x, hx, hnow, _⟩ := (C10_removed_exactly ht hsw hk).1.mp hk'
+    exact Or.inr (Or.inl ⟨hev, x, hx, hnow⟩)
+  | shutdown c hev hflag _ => exact Or.inr (Or.inr (Or.inr ⟨hflag, c, Or.inl hev⟩))
+  | resumedShutdown c hev hp _ =>
+    refine Or.inr (Or.inr (Or.inr ⟨?_, c, Or.inr hev⟩))
+    have hsh : s.shutting = true := by
+      rcases hp with hp | hp
+      · exact hq.parkedOk c _ hp
+      · exact hq.parkedOk c _ hp
+    exact (qmono_step (by rw [hev]; simp) hs).shutting hsh
+
+/-- … at every reachable state, with no hypothesis but reachability -/
+theorem C03_only_these_remove_reach {cfg : Cfg} {now : Nat} {seeds : List Nat}
+    {s s' : State} {ev : Ev} {o o' : Oracle} {out : Out} {k : Nat} {e : Entry}
+    (hr : Reach cfg now seeds s) (hs : step s ev o = .ok (s', out, o'))
+    (hk : s.store.get? k = some e) (hk' : s'.store.get? k = none) :
+    (ev = .worker ∧ s.worker = .running ∧ ∃ h q, s.queue = (.delete k, h) :: q) ∨
+    (ev = .sweep ∧ ∃ x, e.expiry = some x ∧ s.now > x) ∨
+    (ev = .worker ∧ s.worker = .running ∧ ∃ id hash w k' v h q,
+      (s.queue = (.put id hash w k' v, h) :: q ∨ ∃ t, s.queue = (.putTtl id hash w k' v t, h) :: q) ∧
+      s.adm.max - s.adm.used < w) ∨
+    (s'.shutting = true ∧ ∃ c, ev = .shutdown c ∨ ev = .resume c) :=
+  C03_only_these_remove (ttlinv_reach hr) (qinv_of_reach hr) hs hk hk'
+
+/-! ### 2. what alters a key -/
+
+/-- **Only these alter a key's entry** (value, deadline, deletion flag; the id never changes): `put_or_update` of
+    this key (the deletion flag stays, the value is the given one or the old one) and `delete` of this key (only the
+    deletion flag is set).  Nothing else — traffic on other keys, reads, access counting, sketch ageing in the
+    consumer, sweeps, worker steps, clock moves, polls — alters it.  For EVERY state (no invariant needed). -/
+theorem C03_only_these_alter {s s' : State} {ev : Ev} {o o' : Oracle} {out : Out} {k : Nat} {e e' : Entry}
+    (hs : step s ev o = .ok (s', out, o')) (hk : s.store.get? k = some e) (hk' : s'.store.get? k = some e')
+    (hne : e' ≠ e) :
+    ((∃ c v w t rm, ev = .upsert c k v w t rm ∧ e'.soft = e.soft ∧ e'.value = v.getD e.value) ∨
+     (∃ c, ev = .delete c k ∧ e' = { e with soft := true })) ∧ e'.id = e.id := by
+  cases step_key hs k with
+  | same h1 =>
+    rw [h1, hk] at hk'
+    simp only [Option.some.injEq] at hk'
+    exact absurd hk'.symm hne
+  | upsert c v w t rm e0 e1 hev h0 h1 i1 i2 i3 =>
+    rw [hk] at h0
+    simp only [Option.some.injEq] at h0
+    subst h0
+    rw [hk'] at h1
+    simp only [Option.some.injEq] at h1
+    subst h1
+    exact ⟨Or.inl ⟨c, v, w, t, rm, hev, i2, i3⟩, i1⟩
+  | softDelete c e0 hev h0 h1 =>
+    rw [hk] at h0
+    simp only [Option.some.injEq] at h0
+    subst h0
+    rw [hk'] at h1
+    simp only [Option.some.injEq] at h1
+    subst h1
+    exact ⟨Or.inr ⟨c, hev, rfl⟩, rfl⟩
+  | workerDelete hh q _ _ _ h1 => rw [h1] at hk'; cases hk'
+  | evicted id hash w k0 v hh q _ _ _ _ h1 => rw [h1] at hk'; cases hk'
+  | inserted id hash w v hh q entry _ _ _ h0 => rw [hk] at h0; cases h0
+  | swept evs _ _ h1 => rw [h1] at hk'; cases hk'
+  | shutdown c _ _ h1 => rw [h1] at hk'; cases hk'
+  | resumedShutdown c _ _ h1 => rw [h1] at hk'; cases hk'
+
+/-! ### 3. no pressure, no eviction -/
+
+/-- **A put that fits evicts nothing.**  The worker executes a put (with or without time-to-live) of weight `w` that
+    fits into the free space: every OTHER key keeps its entry (case (c) of `C03_only_these_remove` is impossible);
+    if the key was absent the put is accepted without any admission activity (`.worked _ .accepted none [] []`: no
+    estimate, nothing popped, nothing evicted) and stored — or, for a deadline that is not representable, the worker
+    panics, still evicting nothing; if the key was present the put is refused and nothing changes. -/
+theorem C03_no_pressure_no_eviction {s s' : State} {o o' : Oracle} {out : Out} (hi : Inv s)
+    {id hash : Nat} {w : Int} {k0 v : Nat} {h : Option Nat} {q : List (Cmd × Option Nat)}
+    (hw : s.worker = .running)
+    (hq : s.queue = (.put id hash w k0 v, h) :: q ∨ ∃ t, s.queue = (.putTtl id hash w k0 v t, h) :: q)
+    (hfit : w ≤ s.adm.max - s.adm.used) (hs : step s .worker o = .ok (s', out, o')) :
+    (∀ k, k ≠ k0 → s'.store.get? k = s.store.get? k) ∧
+    (s.store.get? k0 = none →
+      ((∃ kind, out = .worked kind .accepted none [] []) ∧
+        ∃ entry, s'.store.get? k0 = some entry ∧ entry.value = v ∧ entry.id = id ∧ entry.soft = false) ∨
+      (out = .workerPanic .timeOverflow ∧ s'.store.get? k0 = none)) ∧
+    (∀ e, s.store.get? k0 = some e →
+      s'.store.get? k0 = some e ∧ ∃ kind, out = .worked kind (.rejected .keyAlreadyExists) none [] []) := by
+  have hmax : w ≤ s.adm.max := by have := hi.used_nonneg; omega
+  refine ⟨?_, ?_, ?_⟩
+  · intro k hkk
+    cases step_key hs k with
+    | same h1 => exact h1
+    | upsert c v w t rm e0 e1 hev => cases hev
+    | softDelete c e0 hev => cases hev
+    | workerDelete hh q' _ _ hq' _ =>
+      rcases hq with hq | ⟨t, hq⟩ <;> (rw [hq] at hq'; simp at hq')
+    | evicted id' hash' w' k' v' hh q' _ _ hq' hpress _ =>
+      have : w' = w := by
+        rcases hq with hq | ⟨t, hq⟩ <;> rcases hq' with hq' | ⟨t', hq'⟩ <;>
+          (rw [hq] at hq'; simp at hq') <;>
+          (obtain ⟨⟨⟨_, _, hw', _⟩, _⟩, _⟩ := hq'; exact hw'.symm)
+      omega
+    | inserted id' hash' w' v' hh q' entry _ _ hq' _ =>
+      exfalso
+      apply hkk
+      rcases hq with hq | ⟨t, hq⟩ <;> rcases hq' with hq' | ⟨t', hq'⟩ <;>
+        (rw [hq] at hq'; simp at hq') <;>
+        (obtain ⟨⟨⟨_, _, _, hk', _⟩, _⟩, _⟩ := hq'; exact hk'.symm)
+    | swept evs hev => cases hev
+    | shutdown c hev => cases hev
+    | resumedShutdown c hev => cases hev
+  · intro hk
+    have hk0 : ({ s with queue := q } : State).store.get? k0 = none := hk
+    have hs' : workerStep s o = .ok (s', out, o') := hs
+    rcases hq with hq | ⟨t, hq⟩
+    · rw [workerStep_running s o _ h q hw hq] at hs'
+      dsimp only at hs'
+      rcases workerPut_fits { s with queue := q } id hash w k0 v none o hk0 hmax hfit with
+        ⟨s1, entry, h1, h2, h3, h4, h5⟩ | ⟨s1, t, ht, _⟩
+      · rw [h1] at hs'
+        simp only [workerFinish, Except.ok.injEq, Prod.mk.injEq] at hs'
+        obtain ⟨rfl, rfl, _⟩ := hs'
+        exact Or.inl ⟨⟨_, rfl⟩, entry, by show s1.store.get? k0 = _; rw [h2]; simp, h3, h4, h5⟩
+      · cases ht
+    · rw [workerStep_running s o _ h q hw hq] at hs'
+      dsimp only at hs'
+      rcases workerPut_fits { s with queue := q } id hash w k0 v (some t) o hk0 hmax hfit with
+        ⟨s1, entry, h1, h2, h3, h4, h5⟩ | ⟨s1, t', _, _, h1, h2⟩
+      · rw [h1] at hs'
+        simp only [workerFinish, Except.ok.injEq, Prod.mk.injEq] at hs'
+        obtain ⟨rfl, rfl, _⟩ := hs'
+        exact Or.inl ⟨⟨_, rfl⟩, entry, by show s1.store.get? k0 = _; rw [h2]; simp, h3, h4, h5⟩
+      · rw [h1] at hs'
+        simp only [workerFinish, Except.ok.injEq, Prod.mk.injEq] at hs'
+        obtain ⟨rfl, rfl, _⟩ := hs'
+        exact Or.inr ⟨rfl, by show s1.store.get? k0 = _; rw [h2]; exact hk⟩
+  · intro e hk
+    have hk0 : ({ s with queue := q } : State).store.get? k0 = some e := hk
+    have hs' : workerStep s o = .ok (s', out, o') := hs
+    rcases hq with hq | ⟨t, hq⟩
+    · rw [workerStep_running s o _ h q hw hq] at hs'
+      dsimp only at hs'
+      rw [C07_worker_recheck { s with queue := q } id hash k0 v w none o e hk0] at hs'
+      simp only [workerFinish, Except.ok.injEq, Prod.mk.injEq] at hs'
+      obtain ⟨rfl, rfl, _⟩ := hs'
+      exact ⟨hk, _, rfl⟩
+    · rw [workerStep_running s o _ h q hw hq] at hs'
+      dsimp only at hs'
+      rw [C07_worker_recheck { s with queue := q } id hash k0 v w (some t) o e hk0] at hs'
+      simp only [workerFinish, Except.ok.injEq, Prod.mk.injEq] at hs'
+      obtain ⟨rfl, rfl, _⟩ := hs'
+      exact ⟨hk, _, rfl⟩
+
+/-! ### 5. "the combined weight never exceeds the cache weight" means no pressure -/
+
+/-- With the accounting invariant the running total IS the combined weight of the keys held (`sumW s.adm.kw`).  So
+    if the combined weight of all keys — those held plus the incoming one — does not exceed the cache weight, the
+    incoming put fits: the hypothesis of `C03_no_pressure_no_eviction`, and the condition `Quiet` asks of worker
+    steps. -/
+theorem C03_demand_fits_means_no_pressure {s : State} (hi : Inv s) {w : Int}
+    (h : sumW s.adm.kw + w ≤ s.adm.max) : w ≤ s.adm.max - s.adm.used ∧ w ≤ s.adm.max := by
+  have h1 := hi.sum
+  have h2 := hi.used_nonneg
+  omega
+
+/-! ### 4. quiet histories retain the entry -/
+
+/-- An event that is "quiet for `k`": not `put_or_update` of `k`, not `delete` of `k`, not `shutdown()`, not a parked
+    call continuing while the shutdown flag is set (`s'.shutting = false` is required of a `resume`), and — if it is
+    a worker step — the head command is not `Delete(k)` and, if it is a put, the put fits
+    (`w ≤ s.adm.max - s.adm.used`).  Everything else is allowed: operations on other keys, puts of `k` itself (they
+    are refused while `k` is present), reads of any key, consumer steps, sweeps, clock moves, polls, worker steps
+    executing `UpdateWeight` or `Shutdown`. -/
+def quietEv (k : Nat) (s s' : State) : Ev → Bool
+  | .upsert _ k' _ _ _ _ => k' != k
+  | .delete _ k' => k' != k
+  | .shutdown _ => false
+  | .resume _ => !s'.shutting
+  | .worker =>
+    match s.queue with
+    | (.delete k', _) :: _ => k' != k
+    | (.put _ _ w _ _, _) :: _ => decide (w ≤ s.adm.max - s.adm.used)
+    | (.putTtl _ _ w _ _ _, _) :: _ => decide (w ≤ s.adm.max - s.adm.used)
+    | _ => true
+  | _ => true
+
+/-- "No operation on `k` itself, no memory pressure, no shutdown": the reflexive-transitive closure of quiet steps. -/
+inductive Quiet (k : Nat) : State → State → Prop where
+  | refl (s : State) : Quiet k s s
+  | step {s s1 s' : State} {ev : Ev} {o o' : Oracle} {out : Out} :
+      Quiet k s s1 → Cached.step s1 ev o = .ok (s', out, o') → quietEv k s1 s' ev = true → Quiet k s s'
+
+theorem Quiet.head {k : Nat} {s s1 s' : State} {ev : Ev} {o o' : Oracle} {out : Out}
+    (hs : Cached.step s ev o = .ok (s1, out, o')) (hq : quietEv k s s1 ev = true) (h : Quiet k s1 s') :
+    Quiet k s s' := by
+  induction h with
+  | refl => exact Quiet.step (Quiet.refl s) hs hq
+  | step _ hs2 hq2 ih => exact Quiet.step ih hs2 hq2
+
+/-- an executable check: run the events, checking each for quietness -/
+def quietRun (k : Nat) (s : State) : List (Ev × Oracle) → Option State
+  | [] => some s
+  | (ev, o) :: rest =>
+    match Cached.step s ev o with
+    | .ok (s', _, _) => if quietEv k s s' ev then quietRun k s' rest else none
+    | .error _ => none
+
+theorem quiet_of_quietRun {k : Nat} : ∀ (l : List (Ev × Oracle)) (s s' : State),
+    quietRun k s l = some s' → Quiet k s s' ∧ runEvents s l = .ok s' := by
+  intro l
+  induction l with
+  | nil =>
+    intro s s' h
+    simp only [quietRun, Option.some.injEq] at h
+    subst h
+    exact ⟨Quiet.refl _, rfl⟩
+  | cons x l ih =>
+    intro s s' h
+    obtain ⟨ev, o⟩ := x
+    simp only [quietRun] at h
+    split at h
+    · rename_i s1 out o1 hs
+      split at h
+      · rename_i hq
+        obtain ⟨h1, h2⟩ := ih _ _ h
+        exact ⟨Quiet.head hs hq h1, by simp only [runEvents, hs]; exact h2⟩
+      · cases h
+    · cases h
+
+/-- the invariants and the clock along a quiet history -/
+theorem Quiet.invs {k : Nat} {s s' : State} (h : Quiet k s s') (hi : Inv s) (ht : TtlInv s) (hq : QInv s) :
+    Inv s' ∧ TtlInv s' ∧ QInv s' ∧ s.now ≤ s'.now := by
+  induction h with
+  | refl => exact ⟨hi, ht, hq, Nat.le_refl _⟩
+  | step _ hs _ ih =>
+    obtain ⟨i1, i2, i3, i4⟩ := ih
+    exact ⟨inv_step i1 hs, ttlinv_step i1 i2 hs, qinv_step i3 hs, Nat.le_trans i4 (step_now_le hs)⟩
+
+/-- **No spurious loss.**  Along a quiet history (no operation on `k` itself, no memory pressure, no shutdown),
+    while the clock has not passed the key's deadline — `s'.now ≤ x` at the END suffices, the clock never runs
+    backwards — the entry of `k` is THE VERY SAME entry: same value, id, deadline, not deleted. -/
+theorem C03_retained {k : Nat} {s s' : State} {e : Entry} (hi : Inv s) (ht : TtlInv s) (hq : QInv s)
+    (hQ : Quiet k s s') (hk : s.store.get? k = some e)
+    (hlive : e.expiry = none ∨ ∃ x, e.expiry = some x ∧ s'.now ≤ x) : s'.store.get? k = some e := by
+  induction hQ with
+  | refl => exact hk
+  | @step s1 s2 ev o o' out hQ1 hs hqe ih =>
+    obtain ⟨i1, i2, i3, _⟩ := hQ1.invs hi ht hq
+    have hle := step_now_le hs
+    have hlive1 : e.expiry = none ∨ ∃ x, e.expiry = some x ∧ s1.now ≤ x := by
+      rcases hlive with h | ⟨x, hx, hnow⟩
+      · exact Or.inl h
+      · exact Or.inr ⟨x, hx, Nat.le_trans hle hnow⟩
+    have hk1 := ih hlive1
+    cases step_key hs k with
+    | same h1 => rw [h1]; exact hk1
+    | upsert c v w t rm e0 e1 hev => subst hev; simp [quietEv] at hqe
+    | softDelete c e0 hev => subst hev; simp [quietEv] at hqe
+    | workerDelete hh q hev _ hq' _ => subst hev; simp [quietEv, hq'] at hqe
+    | evicted id hash w k0 v hh q hev _ hq' hpress _ =>
+      subst hev
+      rcases hq' with hq' | ⟨t, hq'⟩ <;> (simp [quietEv, hq'] at hqe; omega)
+    | inserted id hash w v hh q entry _ _ _ h0 => rw [hk1] at h0; cases h0
+    | swept evs _ hsw _ => exact C10_never_removes_live i2 hsw hk1 hlive1
+    | shutdown c hev => subst hev; simp [quietEv] at hqe
+    | resumedShutdown c hev hp _ =>
+      subst hev
+      have hsh : s1.shutting = true := by
+        rcases hp with hp | hp
+        · exact i3.parkedOk c _ hp
+        · exact i3.parkedOk c _ hp
+      have := (qmono_step (by simp) hs).shutting hsh
+      simp [quietEv, this] at hqe
+
+/-- … hence every completed read of `k` at the end of a quiet history returns the entry's value. -/
+theorem C03_retained_read {k : Nat} {s s' : State} {e : Entry} (hi : Inv s) (ht : TtlInv s) (hq : QInv s)
+    (hQ : Quiet k s s') (hk : s.store.get? k = some e) (hsoft : e.soft = false)
+    (hlive : e.expiry = none ∨ ∃ x, e.expiry = some x ∧ s'.now ≤ x)
+    (s'' : State) (o o' : Oracle) (r : Option Nat) (hr : readKey s' k o = .ok (s'', r, o')) :
+    r = some e.value :=
+  C09_not_hidden s' s'' k o o' e r (C03_retained hi ht hq hQ hk hlive) hsoft hlive hr
+
+/-- **From the acknowledgement on.**  The worker step that ACCEPTS the put of `(k, v)` (its acknowledgement now holds
+    `Accepted`) stores a live entry with value `v`; from the state after that step, along every quiet history that
+    stays within the time-to-live, every completed read of `k` returns `v`. -/
+theorem C03_accepted_put_retained {s0 s s' : State} {o0 o0' : Oracle} {kind : String} {ie : Option Nat}
+    {pp : List SKey} {evs : List Evicted} {id hash : Nat} {w : Int} {k v : Nat} {h : Option Nat}
+    {q : List (Cmd × Option Nat)}
+    (hi : Inv s0) (ht : TtlInv s0) (hq : QInv s0) (hw : s0.worker = .running)
+    (hqueue : s0.queue = (.put id hash w k v, h) :: q ∨ ∃ t, s0.queue = (.putTtl id hash w k v t, h) :: q)
+    (hk0 : s0.store.get? k = none)
+    (hs : step s0 .worker o0 = .ok (s, .worked kind .accepted ie pp evs, o0')) (hQ : Quiet k s s') :
+    ∃ e, s.store.get? k = some e ∧ e.value = v ∧ e.id = id ∧ e.soft = false ∧
+      ((e.expiry = none ∨ ∃ x, e.expiry = some x ∧ s'.now ≤ x) →
+        s'.store.get? k = some e ∧
+        ∀ (s'' : State) (o o' : Oracle) (r : Option Nat), readKey s' k o = .ok (s'', r, o') → r = some v) := by
+  have i1 := inv_step hi hs
+  have i2 := ttlinv_step hi ht hs
+  have i3 := qinv_step hq hs
+  have hent : ∃ e, s.store.get? k = some e ∧ e.value = v ∧ e.id = id ∧ e.soft = false := by
+    cases step_key hs k with
+    | same h1 =>
+      -- the key is still absent: then the put was not accepted
+      exfalso
+      have hs' : workerStep s0 o0 = .ok (s, .worked kind .accepted ie pp evs, o0') := hs
+      rcases hqueue with hq0 | ⟨t, hq0⟩
+      · rw [workerStep_running s0 o0 _ h q hw hq0] at hs'
+        dsimp only at hs'
+        split at hs'
+        · rename_i r hr
+          obtain ⟨ex, o1⟩ := r
+          cases ex with
+          | done s1 st ie' pp' ev' =>
+            simp only [workerFinish, Except.ok.injEq, Prod.mk.injEq, Out.worked.injEq] at hs'
+            obtain ⟨rfl, ⟨_, rfl, _⟩, _⟩ := hs'
+            have := C09_deadline_put_none _ _ _ _ _ _ _ _ _ _ _ _ hr
+            have h2 : s1.store.get? k = none := by rw [← hk0]; exact h1
+            rw [h2] at this; cases this
+          | panicked s1 p => simp [workerFinish] at hs'
+        · cases hs'
+      · rw [workerStep_running s0 o0 _ h q hw hq0] at hs'
+        dsimp only at hs'
+        split at hs'
+        · rename_i r hr
+          obtain ⟨ex, o1⟩ := r
+          cases ex with
+          | done s1 st ie' pp' ev' =>
+            simp only [workerFinish, Except.ok.injEq, Prod.mk.injEq, Out.worked.injEq] at hs'
+            obtain ⟨rfl, ⟨_, rfl, _⟩, _⟩ := hs'
+            have := (C09_deadline_put _ _ _ _ _ _ _ _ _ _ _ _ _ hr).1
+            have h2 : s1.store.get? k = none := by rw [← hk0]; exact h1
+            rw [h2] at this; cases this
+          | panicked s1 p => simp [workerFinish] at hs'
+        · cases hs'
+    | upsert c v w t rm e0 e1 hev => cases hev
+    | softDelete c e0 hev => cases hev
+    | workerDelete hh q' _ _ hq' _ =>
+      rcases hqueue with hq0 | ⟨t, hq0⟩ <;> (rw [hq0] at hq'; simp at hq')
+    | evicted id' hash' w' k' v' hh q' _ _ _ _ h1 =>
+      -- the incoming key itself is never among the evicted: it was absent; `s.store.get? k = none` contradicts acceptance
+      exfalso
+      have hs' : workerStep s0 o0 = .ok (s, .worked kind .accepted ie pp evs, o0') := hs
+      rcases hqueue with hq0 | ⟨t, hq0⟩
+      · rw [workerStep_running s0 o0 _ h q hw hq0] at hs'
+        dsimp only at hs'
+        split at hs'
+        · rename_i r hr
+          obtain ⟨ex, o1⟩ := r
+          cases ex with
+          | done s1 st ie' pp' ev' =>
+            simp only [workerFinish, Except.ok.injEq, Prod.mk.injEq, Out.worked.injEq] at hs'
+            obtain ⟨rfl, ⟨_, rfl, _⟩, _⟩ := hs'
+            have := C09_deadline_put_none _ _ _ _ _ _ _ _ _ _ _ _ hr
+            have h2 : s1.store.get? k = none := h1
+            rw [h2] at this; cases this
+          | panicked s1 p => simp [workerFinish] at hs'
+        · cases hs'
+      · rw [workerStep_running s0 o0 _ h q hw hq0] at hs'
+        dsimp only at hs'
+        split at hs'
+        · rename_i r hr
+          obtain ⟨ex, o1⟩ := r
+          cases ex with
+          | done s1 st ie' pp' ev' =>
+            simp only [workerFinish, Except.ok.injEq, Prod.mk.injEq, Out.worked.injEq] at hs'
+            obtain ⟨rfl, ⟨_, rfl, _⟩, _⟩ := hs'
+            have := (C09_deadline_put _ _ _ _ _ _ _ _ _ _ _ _ _ hr).1
+            have h2 : s1.store.get? k = none := h1
+            rw [h2] at this; cases this
+          | panicked s1 p => simp [workerFinish] at hs'
+        · cases hs'
+    | inserted id' hash' w' v' hh q' entry _ _ hq' _ h1 j1 j2 j3 =>
+      refine ⟨entry, h1, ?_, ?_, j3⟩
+      · rw [j2]
+        rcases hqueue with hq0 | ⟨t, hq0⟩ <;> rcases hq' with hq' | ⟨t', hq'⟩ <;>
+          (rw [hq0] at hq'; simp at hq') <;>
+          (obtain ⟨⟨⟨_, _, _, hv'⟩, _⟩, _⟩ := hq'; first | exact hv'.symm | exact hv'.1.symm)
+      · rw [j1]
+        rcases hqueue with hq0 | ⟨t, hq0⟩ <;> rcases hq' with hq' | ⟨t', hq'⟩ <;>
+          (rw [hq0] at hq'; simp at hq') <;>
+          (obtain ⟨⟨⟨hid', _⟩, _⟩, _⟩ := hq'; exact hid'.symm)
+    | swept evs' hev => cases hev
+    | shutdown c hev => cases hev
+    | resumedShutdown c hev => cases hev
+  obtain ⟨e, he, hv, hid, hsoft⟩ := hent
+  refine ⟨e, he, hv, hid, hsoft, fun hlive => ⟨C03_retained i1 i2 i3 hQ he hlive, ?_⟩⟩
+  intro s'' o o' r hr
+  rw [← hv]
+  exact C03_retained_read i1 i2 i3 hQ he hsoft hlive s'' o o' r hr
+
+/-! ### 6. non-vacuity: concrete histories -/
+
+def c03Cfg : Cfg := { maxWeight := 100, shards := 2, cmdCap := 4, poolSize := 1, bufSize := 1, counters := 2 }
+
+def c03Init : State := State.init c03Cfg 5000000000 [1, 2, 3, 4]
+
+def c03O : Oracle := {}
+
+/-- `put_with_weight_and_ttl(1 ↦ 10, weight 5, ttl 10 s)` accepted at clock 5 s: deadline 15 s -/
+def c03Put : List (Ev × Oracle) := [(.putWTtl 0 1 10 5 10000000000, c03O), (.worker, c03O)]
+
+/-- traffic on key 2 (put, two hits, upsert, weight update, delete), a put of key 1 itself (refused), a consumer
+    step (sketch ageing), sweeps, a poll and clock moves that stay below the deadline of key 1 -/
+def c03Traffic : List (Ev × Oracle) :=
+  [(.putW 0 2 20 5, c03O), (.worker, c03O), (.get 2, { pool := [0] }), (.get 2, { pool := [0] }),
+   (.consumer, { dkAdd := [true] }), (.upsert 0 2 (some 21) none none false, c03O), (.worker, c03O),
+   (.putW 0 1 99 5, c03O), (.sweep, c03O), (.advance 1000000000, c03O), (.sweep, c03O), (.poll 0, c03O),
+   (.delete 0 2, c03O), (.worker, c03O), (.advance 8000000000, c03O), (.sweep, c03O), (.multiGet [2, 3], c03O)]
+
+/-- the traffic is a quiet history for key 1 (a concrete `Quiet` derivation via `quiet_of_quietRun`), key 1 keeps
+    THE SAME entry and is read with its value at the end (clock 14 s ≤ deadline 15 s) -/
+example :
+    (match runEvents c03Init c03Put with
+     | .ok s =>
+       (match quietRun 1 s c03Traffic with
+        | some s' =>
+          (match step s' (.get 1) { pool := [0] } with
+           | .ok (_, .value v, _) =>
+             decide (v = some 10 ∧ s'.store.get? 1 = s.store.get? 1 ∧
+                     s.store.get? 1 = some ⟨10, 1, some 15000000000, false⟩ ∧ s'.now = 14000000000 ∧
+                     s'.store.get? 2 = none)
+           | _ => false)
+        | none => false)
+     | _ => false) = true := by decide
+
+/-- `C03_retained` instantiated on that history: all its hypotheses hold -/
+example (s s' : State) (h1 : runEvents c03Init c03Put = .ok s) (h2 : quietRun 1 s c03Traffic = some s')
+    (e : Entry) (hk : s.store.get? 1 = some e) (hlive : e.expiry = none ∨ ∃ x, e.expiry = some x ∧ s'.now ≤ x) :
+    s'.store.get? 1 = some e := by
+  have hr : Reach c03Cfg 5000000000 [1, 2, 3, 4] s := reach_runEvents _ Reach.init h1
+  exact C03_retained (inv_reach hr) (ttlinv_reach hr) (qinv_of_reach hr) (quiet_of_quietRun _ _ _ h2).1 hk hlive
+
+/-- past the deadline (clock 17 s: the sweeper visits shard 1, the shard of second 15) the sweeper removes the key — case (b) of `C03_only_these_remove` — and a `delete` of the key
+    executed by the worker removes it — case (a) -/
+example :
+    (match runEvents c03Init (c03Put ++ [(.advance 12000000000, c03O)]),
+           runEvents c03Init (c03Put ++ [(.delete 0 1, c03O)]) with
+     | .ok s, .ok t =>
+       (match step s .sweep c03O, step t .worker c03O with
+        | .ok (s', _, _), .ok (t', _, _) =>
+          decide ((s.store.get? 1).isSome ∧ s'.store.get? 1 = none ∧ s.now > 15000000000 ∧
+                  (t.store.get? 1).isSome ∧ t'.store.get? 1 = none)
+        | _, _ => false)
+     | _, _ => false) = true := by decide
+
+/-- memory pressure — case (c): a put of weight 98 does not fit beside key 1 (weight 5, limit 100) and evicts it -/
+example :
+    (match runEvents c03Init (c03Put ++ [(.putW 0 2 20 98, c03O)]) with
+     | .ok s =>
+       (match step s .worker { dk := [false, false], ids := [1], pops := [some 1] } with
+        | .ok (s', _, _) =>
+          decide ((s.store.get? 1).isSome ∧ s'.store.get? 1 = none ∧ (s'.store.get? 2).isSome ∧
+                  quietEv 1 s s' .worker = false)
+        | _ => false)
+     | _ => false) = true := by decide
+
+/-- shutdown — case (d) -/
+example :
+    (match runEvents c03Init c03Put with
+     | .ok s =>
+       (match step s (.shutdown 7) c03O with
+        | .ok (s', _, _) => decide ((s.store.get? 1).isSome ∧ s'.store.get? 1 = none ∧ s'.shutting = true)
+        | _ => false)
+     | _ => false) = true := by decide
+
+/-- `C03_only_these_alter`: an upsert and a delete of key 1 alter its entry, keeping the id -/
+example :
+    (match runEvents c03Init c03Put with
+     | .ok s =>
+       (match step s (.upsert 0 1 (some 11) none none true) c03O, step s (.delete 0 1) c03O with
+        | .ok (s', _, _), .ok (t', _, _) =>
+          decide (s'.store.get? 1 = some ⟨11, 1, none, false⟩ ∧ t'.store.get? 1 = some ⟨10, 1, some 15000000000, true⟩)
+        | _, _ => false)
+     | _ => false) = true := by decide
+
+/-- `C03_no_pressure_no_eviction` / `C03_demand_fits_means_no_pressure`: the put of key 2 (weight 5) beside key 1
+    (weight 5, limit 100) fits and is accepted with no admission activity -/
+example :
+    (match runEvents c03Init (c03Put ++ [(.putW 0 2 20 5, c03O)]) with
+     | .ok s =>
+       (match step s .worker c03O with
+        | .ok (s', .worked kind st ie pp ev, _) =>
+          decide (kind = "Put" ∧ st = .accepted ∧ ie = none ∧ pp = [] ∧ ev = [] ∧ sumW s.adm.kw + 5 ≤ s.adm.max ∧
+                  s'.store.get? 1 = s.store.get? 1 ∧ s.worker = .running)
+        | _ => false)
+     | _ => false) = true := by decide
+
+/-- the hypotheses of `C03_accepted_put_retained`: the queued put of the absent key 1 is accepted by the worker -/
+example :
+    (match runEvents c03Init [(.putWTtl 0 1 10 5 10000000000, c03O)] with
+     | .ok s0 =>
+       (match step s0 .worker c03O with
+        | .ok (_, .worked kind st _ _ _, _) =>
+          decide (s0.worker = .running ∧ s0.queue = [(.putTtl 1 1 5 1 10 10000000000, some 0)] ∧
+                  s0.store.get? 1 = none ∧ kind = "PutWithTTL" ∧ st = .accepted)
+        | _ => false)
+     | _ => false) = true := by decide
+
+/-! ### 7. what "the combined weight of all keys" has to mean -/
+
+/-- key 1 (weight 5, no time-to-live) and key 2 (weight 90, time-to-live 1 s) are accepted, key 2 is read twice and
+    the consumer counts the access; the clock moves 2 s past key 2's deadline; the sweeper runs (at second 7 it
+    visits shard 1, key 2's deadline lies in shard 0) -/
+def c03Lingering : List (Ev × Oracle) :=
+  [(.putW 0 1 10 5, c03O), (.worker, c03O), (.putWTtl 0 2 20 90 1000000000, c03O), (.worker, c03O),
+   (.get 2, { pool := [0] }), (.get 2, { pool := [0] }), (.consumer, { dkAdd := [true] }),
+   (.advance 2000000000, c03O), (.sweep, c03O)]
+
+/-- **Observation (the limit of C03's hypothesis).**  The weight that decides about memory pressure is the total of
+    all CHARGED keys, `s.adm.used = sumW s.adm.kw` — this includes keys that are past their time-to-live and not yet
+    swept (and soft-deleted keys whose `Delete` is not yet executed).  Here key 2 has expired (it reads as absent,
+    and a sweep has run), the only readable key is key 1 with weight 5, and a put of weight 90 is issued: readable
+    weight plus incoming weight is 95 ≤ 100, yet the free space is 5, admission runs, and the live, never-accessed
+    key 1 is evicted — after which the put is REJECTED (`noSpace`) because the expired key 2 has the higher
+    estimate.  So "the combined weight of all keys never exceeds the cache weight" protects a key only if expired
+    but unswept keys are counted in (as `C03_demand_fits_means_no_pressure` does); read as "all readable keys" the
+    property is false of the code. -/
+theorem C03_counterexample_expired_unswept_still_charged :
+    (match runEvents c03Init (c03Lingering ++ [(.putW 0 3 30 90, c03O)]) with
+     | .ok s =>
+       (match step s (.get 2) c03O, step s (.get 1) { pool := [0] },
+              step s .worker { dk := [false, false, true], ids := [1, 2], pops := [some 1, some 2] } with
+        | .ok (_, .value v2, _), .ok (_, .value v1, _), .ok (s', .worked _ st _ _ ev, _) =>
+          decide (v2 = none ∧ v1 = some 10 ∧ s.adm.used = 95 ∧ s.adm.max = 100 ∧
+                  st = .rejected .noSpace ∧ ev = [(1, 1, 5)] ∧
+                  s'.store.get? 1 = none ∧ s'.store.get? 3 = none ∧ (s'.store.get? 2).isSome)
+        | _, _, _ => false)
+     | _ => false) = true := by decide
 
 end Cached
